@@ -42,7 +42,8 @@ static keyset_t *KS;
 static int g_v, thorough;
 static const cfg_t *C;
 static uint32_t L;
-static uint8_t *MSG, *EXP, *OUT, AAD[64], IVB[32], EXPTAG[16];
+static uint8_t *MSG, *EXP, *OUT, *AAD, *IVB, EXPTAG[16]; /* AAD / IVB: end-flush against unmapped pages (set per configuration) */
+static region_t GAAD, GIVR;
 static int ivlen, aadlen = 13;
 static uint32_t SEG[256];
 static int NSEG;
@@ -324,8 +325,10 @@ run_cfg_variant(long item, void *arg)
         if (C->iface == I_GMAC)
                 ivlen = C->klen == 24 ? 9 : 12;
         fill_rand(MSG, L, 77);
-        fill_rand(AAD, sizeof AAD, 78);
-        fill_rand(IVB, sizeof IVB, 79);
+        AAD = region_endflush(GAAD, (size_t) aadlen);
+        IVB = region_endflush(GIVR, (size_t) ivlen);
+        fill_rand(AAD, (size_t) aadlen, 78);
+        fill_rand(IVB, (size_t) ivlen, 79);
         /* one-shot reference */
         const uint8_t *raw = keyset_raw(KS);
         if (C->iface == I_GMAC) {
@@ -549,6 +552,8 @@ main(int argc, char **argv)
                 c18_only = 1;
         rec_init(c07_only ? "C07" : c18_only ? "C18" : "C10", getenv("VERIF_TIER") ? getenv("VERIF_TIER") : "quick");
         GIN = region_new(2);
+        GAAD = region_new(1);
+        GIVR = region_new(1);
         struct sigaction sa;
         memset(&sa, 0, sizeof sa);
         sa.sa_sigaction = on_fault;
